@@ -243,7 +243,7 @@ PROPS['C05'] = {
     ],
 }
 PROPS['C01'] = {
-    'units': ['solver', 'print', 'unify', 'functions'],
+    'units': ['solver', 'print', 'unify', 'functions', 'solver_ext', 'solutions_ids', 'compare', 'listops', 'append'],
     'functions': SOLVER_FNS + ['solutions.rs::format_solution'],
     'oracles': {'*': 'c01_prog', '#solve_all': 'c01_solve_all'},
     'bounded': [('c01_prog', 'the equivalence itself, BOUNDED: 3000 random stratified programs per seed (facts; rules of three levels calling lower levels only; conjunction, disjunction in one level of parentheses, unification, comparisons, count / append, '
@@ -256,7 +256,10 @@ PROPS['C01'] = {
         'the later alternatives of a disjunction run under the bindings the disjunction was entered with and are exactly the remaining operands (#alternatives_share_bindings) - substitution sets are immutable values (Rc<Vec>, never written after creation), '
         'so nothing an abandoned alternative has bound can appear in a later answer; an exhausted node yields nothing more (C05); a flagged node yields nothing more (C02)',
         'PROVED on unify / unify_sfunction (#no_new_ids): unification introduces no variable id of its own - whatever bounds the ids of the two terms and of the prior bindings bounds those of the result; '
-        'the clause loop rewinds the id counter only after the head of the clause just fetched has failed to unify (#ids_released_only_after_failed_unification). That ids given back are then referenced by nothing is argued from these two, not proved (it needs the counter and the term invariants of C06 carried through the search)',
+        'the clause loop rewinds the id counter only after the head of the clause just fetched has failed to unify (#ids_released_only_after_failed_unification). That ids given back are then referenced by nothing is PROVED since 8.36 (C10, unit solver_ids: the id invariant of the search)',
+        'PROVED since 8.38 (unit solver_ext: overlay contracts contracts/*+ext.vc on the verbatim bodies of next_solution, next_solution_and / _or / _bip and the node constructors; solve / solve_all in unit solutions_ids): NO BINDING IS EVER LOST in the search - '
+        'every answer a node gives extends the bindings the node was made with (#answer_extends), the bindings of the nodes it is linked to (clause body, first operand, remaining operands) extend its own (heap_ext; #ext_kept, #ext_inv), and the bindings a node was made with never change (#bindings_fixed); '
+        'this rests on unify\'s #keeps (unit unify) and on the built-in predicates keeping the bindings they are given (#keeps_bindings, proved for all ten in units compare, listops, append). With C06\'s soundness of unify this is the soundness half of the equivalence at the level of bindings: an answer contains, unchanged, every binding made on the way to it',
         'NOT PROVED, bounded only: that the answers are exactly those of depth-first, left-to-right, clause-order resolution, in that order and multiplicity - a whole-history equivalence with a reference semantics, modulo renaming of unbound variables '
         '(clause renaming draws ids from a global counter that the search also rewinds); the random-program comparison stands in for it, labelled bounded',
         'format_solution is PROVED (unit print): `$Var = value` for each variable among the query\'s arguments, in argument order, separated by ", ", the value being the corresponding argument of the result (#solution_text) - under the precondition that the result has the arity of the query (replace_variables keeps the shape; that precondition is not carried through solve / solve_all, where format_solution is abstract); Display of the value is uninterpreted',
